@@ -81,7 +81,12 @@ func (c15) Gen(r *Rng, tier string, run int) *Trace {
 		case 6:
 			g.emit(Op{Obj: dst, M: "Pop"}, false)
 		case 7:
-			g.emit(Op{Obj: dst, M: "SetReadOnly", Args: []Val{vBool(r.Bool(0.4))}}, false)
+			if r.Bool(0.3) {
+				// a read-only source may still be transferred FROM, and stays read-only
+				g.emit(Op{Obj: src, M: "SetReadOnly", Args: []Val{vBool(r.Bool(0.6))}}, false)
+			} else {
+				g.emit(Op{Obj: dst, M: "SetReadOnly", Args: []Val{vBool(r.Bool(0.4))}}, false)
+			}
 		default:
 			var d Val
 			switch r.Intn(10) {
